@@ -36,7 +36,8 @@ import (
 
 var Driver = core.Driver{ID: "C14", Level: "exploration", Run: run, Replay: replay, SelfTest: selfTest}
 
-var traceOpts = core.TLCOpts{Dir: "font", Module: "Trace_FontCodes", Cfg: "Trace_FontCodes.cfg", XssMB: 1024, XmxMB: 3000}
+var traceOpts = core.TLCOpts{Dir: "font", Module: "Trace_FontCodes", Cfg: "Trace_FontCodes.cfg", XssMB: 1024, XmxMB: 3000,
+	Env: map[string]string{"JAVA_TOOL_OPTIONS": "-XX:ParallelGCThreads=2 -XX:CICompilerCount=2"}}
 
 // ---------------------------------------------------------------------------
 // font kinds
